@@ -748,7 +748,151 @@ def cas6b(ctx, c):
     listing_collection(c, ctx.repo, CLS)
 
 
-RULES = {"CAS-1": cas1, "CAS-4": cas4, "CAS-6": cas6b}
+def cas1_addr(ctx, c):
+    """the two addresses of the name-file block are two bytes each whatever the value's own width: a rendering by .hex() has as many digits as the value's width tag
+    says (two for `ORG $80`, none for a program without ORG)"""
+    repo = ctx.repo
+    C = repo.cls(CLS)
+    ah = C.methods.get("append_header")
+    if ah is None:
+        return
+    from ..inline import flatten as _fla
+    flat = _fla(repo, ah, depth=2)
+    aliases = set()
+    for n in ast.walk(flat):
+        if isinstance(n, ast.For) and re.search(r"load_addr|exec_addr", U(n.iter)) and isinstance(n.target, ast.Name):
+            aliases.add(n.target.id)
+        if isinstance(n, ast.Assign) and re.search(r"\.(load_addr|exec_addr)$", U(n.value)) and isinstance(n.targets[0], ast.Name):
+            aliases.add(n.targets[0].id)
+    rendered = [n for n in ast.walk(flat) if isinstance(n, ast.Call) and isinstance(n.func, ast.Attribute) and n.func.attr in ("hex", "ascii", "__str__")
+                and (re.search(r"load_addr|exec_addr", U(n.func.value)) or (isinstance(n.func.value, ast.Name) and n.func.value.id in aliases))]
+    if rendered:
+        c.finding("append_header:address-bytes", "an address is stored through its own rendering (%s)" % U(rendered[0])[:40],
+                  "append_header builds header bytes from `%s`: that text has as many digits as the value's width tag (two for an origin written $80, none for a program without ORG), "
+                  "so the block is shorter than 15 bytes and its addresses are wrong; high_byte()/low_byte() always give the two bytes" % U(rendered[0])[:60], repo.loc(ah, rendered[0]))
+    else:
+        c.ok("append_header:address-bytes", "addresses are not taken from a rendering of their own width", repo.loc(ah, ah.node))
+
+
+def cas1_literals(ctx, c):
+    """every block written as a literal list (55 3C type len payload... checksum 55) is a well-formed frame"""
+    repo = ctx.repo
+    C = repo.cls(CLS)
+    n_ = 0
+    for f in C.methods.values():
+        for x in ast.walk(f.node):
+            if isinstance(x, (ast.List, ast.Tuple)) and len(x.elts) >= 6:
+                vals = [try_fold(e_, ctx.env) for e_ in x.elts]
+                if not all(isinstance(v_, int) and not isinstance(v_, bool) for v_ in vals) or vals[:2] != [T.SYNC[0], T.SYNC[1]]:
+                    continue
+                n_ += 1
+                want = sum(vals[2:-2]) & 0xFF
+                good = vals[-1] == T.TRAILER and vals[3] == len(vals) - 6 and vals[-2] == want
+                c.check(good, "%s:literal-frame" % f.name, "literal frame %s" % " ".join("%02X" % v_ for v_ in vals),
+                        "literal frame %s (checksum should be %02X, length %02X, trailer 55)" % (" ".join("%02X" % v_ for v_ in vals), want, len(vals) - 6),
+                        "%s writes the literal block %s: a block is 55 3C type length payload checksum 55 with checksum = (type + length + payload) mod 256 = %02X and length = %d"
+                        % (f.name, " ".join("%02X" % v_ for v_ in vals), want, len(vals) - 6), repo.loc(f, x))
+    if not n_:
+        c.ok("literal-frames", "no block is written as a literal list", "")
+
+
+def cas1_name(ctx, c):
+    """append_name folded for sample names, two files in a row on one container: each writes its own 8 bytes (the name as given, cut or blank padded) and returns their sum"""
+    from .wid import fold_constructor, fold_method
+    from ..consteval import NotConst, Raised
+    repo = ctx.repo
+    C = repo.cls(CLS)
+    an = C.methods.get("append_name")
+    if an is None:
+        return
+    where = repo.loc(an, an.node)
+    try:
+        st = fold_constructor(ctx, CLS, {})
+        selfenv = {k: v for k, v in st.items() if k.startswith("self.")}
+    except Exception:
+        selfenv = {}
+    if not isinstance(selfenv.get("self.buffer"), list):
+        selfenv["self.buffer"] = []
+    bad, und = None, None
+    for name in ("ABCDEFGH", "XY", " PROG", "LONGNAMEXYZ", "", "a b", "PROG    "):
+        before = len(selfenv["self.buffer"])
+        try:
+            ck = fold_method(ctx, CLS, "append_name", selfenv, (name,))
+        except Raised as e:
+            bad = bad or (name, "raises %s" % e.name, None)
+            continue
+        except (NotConst, Exception) as e:
+            und = und or "%s for %r" % (str(e)[:60], name)
+            break
+        got = selfenv["self.buffer"][before:]
+        want = [ord(ch) for ch in name.ljust(8)[:8]]
+        if got != want or ck != sum(want):
+            bad = bad or (name, got, ck)
+    if und:
+        c.undecided("append_name:bytes:name", "not-foldable", und, where)
+    elif bad:
+        c.finding("append_name:bytes:name", "the name %r is written as %s" % (bad[0], bad[1] if not isinstance(bad[1], list) else " ".join("%02X" % (x if isinstance(x, int) else 0) for x in bad[1])),
+                  "append_name, folded for the names of several files written one after the other, writes %s for %r (checksum term %s); the field is the name as given, cut to 8 characters or "
+                  "padded with blanks, independent of the files written before" % (bad[1], bad[0], bad[2]), where)
+    else:
+        c.ok("append_name:bytes:name", "8 name bytes and their sum for 7 names in a row", where)
+
+
+def cas1_whole(ctx, c):
+    """CassetteFile.add_file evaluated in the length domain: the data handed to append_data_blocks, over all calls, is the file's data once, in order."""
+    from ..concrete import Seq, Obj, Desc, run_concrete
+    repo = ctx.repo
+    C = repo.cls(CLS)
+    af = C.methods.get("add_file")
+    if af is None:
+        return
+    where = repo.loc(af, af.node)
+    p_file = [p for p in af.params if p != "self"][0]
+    bad, und = None, None
+    workers = tuple(n for n in C.methods if n.startswith("append_"))
+
+    def resolver(name):
+        f_ = repo.lookup(C, name)
+        return f_.node if f_ is not None else None
+    for L in (0, 1, 254, 255, 256, 509, 510, 511, 765, 1000):
+        env = dict(ctx.env)
+        fobj = Obj("CoCoFile", label="<file>")
+        fobj.attrs["data"] = Seq(L, 0, "data")
+        env[p_file] = fobj
+        events, notes = [], []
+        end = run_concrete(body_without_doc(af.node), env, events, notes, workers=workers, resolver=resolver)
+        if notes or (end or "").startswith("raise"):
+            und = und or ("%s (length %d)" % ("; ".join(sorted(set(notes)))[:80] or end, L))
+            continue
+        spans = []
+        for e in events:
+            if e[0] == "call" and e[2] == "append_data_blocks" and e[4]:
+                a0 = e[4][0]
+                if isinstance(a0, Seq) and a0.name == "data":
+                    spans.append((a0.start, a0.start + a0.length))
+                else:
+                    und = und or "append_data_blocks receives %s" % (e[3][0] if e[3] else "?")
+        if und:
+            continue
+        pos = 0
+        okl = True
+        for a_, b_ in spans:
+            if a_ != pos and not (a_ == b_):
+                okl = False
+            pos = max(pos, b_) if a_ == pos else pos
+        if not okl or pos != L or sum(b_ - a_ for a_, b_ in spans) != L:
+            bad = bad or (L, spans)
+    if und:
+        c.undecided("add_file:whole:data", "not-evaluable", und, where)
+    elif bad:
+        c.finding("add_file:whole:data", "a file of %d bytes is handed to the block writer as %s" % (bad[0], bad[1][:6]),
+                  "CassetteFile.add_file, evaluated for a file of %d data bytes, passes the byte ranges %s to append_data_blocks: the blocks written must carry bytes 0..%d once, in order"
+                  % (bad[0], bad[1][:8], bad[0]), where)
+    else:
+        c.ok("add_file:whole:data", "the data is handed to the block writer once, in order (10 lengths)", where)
+
+
+RULES = {"CAS-1": (lambda ctx, c: (cas1(ctx, c), cas1_whole(ctx, c), cas1_addr(ctx, c), cas1_literals(ctx, c), cas1_name(ctx, c))), "CAS-4": cas4, "CAS-6": cas6b}
 
 
 # ---------------------------------------------------------------------------------------------------
@@ -1024,6 +1168,58 @@ def cas5b(ctx, c):
     cas5(ctx, c)
     repo = ctx.repo
     C = repo.cls(CLS)
+    # the reader lists every header the writer can produce: file types 0-3, data types 00 / FF, gap flags 00 / 01 / FF.  A header refused for the VALUE of such a field
+    # makes a good tape unreadable - and get_coco_files takes the refusal for "not a tape", so the image is then overwritten as if it were a raw binary
+    from ..consteval import fold as _frf, NotConst as _Nrf
+    from ..inline import flatten as _flrf
+    rfm = C.methods.get("read_file")
+    if rfm is not None:
+        rflat = _flrf(repo, rfm, depth=2, only={m_ for m_ in C.methods if m_ not in ("read_blocks", "skip_to_sequence")})
+        refused = None
+        for n in ast.walk(rflat):
+            if isinstance(n, ast.If) and n.body and isinstance(n.body[-1], ast.Raise):
+                fields_ = sorted({U(x) for x in ast.walk(n.test) if isinstance(x, ast.Attribute) and x.attr == "int" and re.search(r"type|gap|ascii|flag", U(x))})
+                if len(fields_) != 1:
+                    continue
+                for v_ in (0, 1, 2, 3, 0xFF):
+                    if ("data" in fields_[0] or "ascii" in fields_[0]) and v_ not in (0, 0xFF):
+                        continue
+                    if "gap" in fields_[0] and v_ not in (0, 1, 0xFF):
+                        continue
+                    if "file" in fields_[0] and v_ == 0xFF:
+                        continue
+                    try:
+                        if _frf(n.test, dict(ctx.env, **{fields_[0]: v_})):
+                            refused = refused or (n, fields_[0], v_)
+                    except _Nrf:
+                        break
+        if refused:
+            c.finding("read_file:refuses-field", "a header whose %s is %#04x is refused" % (refused[1], refused[2]),
+                      "CassetteFile.read_file raises when `%s`, which holds for %s = %#04x: the writer stores whatever type and flags a file has, so a tape the tool wrote is refused, "
+                      "and VirtualFile.get_coco_files reads the refusal as 'not a cassette' (the target is then treated, and overwritten, as a raw binary)"
+                      % (U(refused[0].test)[:70], refused[1], refused[2]), repo.loc(rfm, refused[0]))
+        else:
+            c.ok("read_file:refuses-field", "no header is refused for the value of its type / flag fields", repo.loc(rfm, rfm.node))
+    # a tape may carry any amount of leader and blank between blocks: the readers do not give up after a fixed distance
+    bounded = None
+    for f in [m_ for n_, m_ in C.methods.items() if n_ in ("read_blocks", "read_file", "list_files", "skip_to_sequence")]:
+        for n in ast.walk(f.node):
+            if not (isinstance(n, ast.If) and n.body and isinstance(n.body[-1], (ast.Raise, ast.Return, ast.Break))):
+                continue
+            for cmp_ in [x for x in ast.walk(n.test) if isinstance(x, ast.Compare) and len(x.ops) == 1 and isinstance(x.ops[0], (ast.Gt, ast.GtE, ast.Lt, ast.LtE))]:
+                sides_ = [cmp_.left, cmp_.comparators[0]]
+                dist = [x for x in sides_ if isinstance(x, ast.BinOp) and isinstance(x.op, ast.Sub) and all(isinstance(y, (ast.Name, ast.Attribute)) for y in (x.left, x.right))
+                        and re.search(r"pointer|start|pos|offset|index|block|found", U(x))]
+                const = [try_fold(x, ctx.env) for x in sides_ if isinstance(try_fold(x, ctx.env), int)]
+                if dist and const and const[0] > 2:
+                    bounded = bounded or (f, n, U(cmp_), const[0])
+    if bounded:
+        f_, n_, t_, k_ = bounded
+        c.finding("%s:scan-distance" % f_.name, "the scan for the next block gives up after %d bytes (%s)" % (k_, t_[:40]),
+                  "CassetteFile.%s stops when `%s`: a well-formed tape may have any amount of leader or blank tape between two blocks (the tool's own writer uses 256 bytes, "
+                  "real recordings far more), so a file whose next block lies further away is not listed" % (f_.name, t_), repo.loc(f_, n_))
+    else:
+        c.ok("readers:scan-distance", "no reader bounds the distance to the next block", repo.loc(C.methods["read_blocks"], C.methods["read_blocks"].node) if "read_blocks" in C.methods else "")
     # the not-found value of skip_to_sequence is the value its callers test for
     sk = C.methods.get("skip_to_sequence")
     if sk is not None:
